@@ -55,7 +55,7 @@ os._exit(int(code))
 
 SENTINEL = '<<cmdOut untouched>>'
 WATCHDOG_S = 60.0          # whole case
-WAIT_S = 20.0              # one expected condition
+WAIT_S = 10.0              # one expected condition
 
 
 # --------------------------------------------------------------------------
@@ -307,6 +307,7 @@ class Releaser(threading.Thread):
         self.infra = None
         self.expected = set()       # ids the plan has started so far
         self.released = set()
+        self.free_run = False       # the plan could not be followed: just let everything go
         self.t0 = time.monotonic()
 
     # -- primitives
@@ -343,6 +344,7 @@ class Releaser(threading.Thread):
                 return False
             if now - t1 > WAIT_S:
                 self.anomalies.append(['never_happened', what])
+                self.free_run = True
                 return False
             self.sweep_unexpected()
             time.sleep(0.001)
@@ -382,13 +384,24 @@ class Releaser(threading.Thread):
         ok = self.wait_for(lambda: all(self.exists('started', i) for i in first), ['all_started', first])
         if not ok:
             missing = [i for i in first if not self.exists('started', i)]
-            self.anomalies.append(['not_started_concurrently', missing])
+            if missing and not self.finished.is_set():
+                # is it the implementation or the machine? time a trivial spawn
+                import subprocess
+                t1 = time.monotonic()
+                subprocess.run([sys.executable, '-S', '-c', 'pass'])
+                if time.monotonic() - t1 > 2.0:
+                    self.infra = 'machine too slow to judge concurrency (trivial spawn took > 2 s)'
+                    return
+            if missing:
+                self.anomalies.append(['not_started_concurrently', missing])
         if self.infra:
             return
         # 2. the schedule
         for kind, i in plan[k:]:
             if self.infra:
                 return
+            if self.free_run or self.finished.is_set():
+                break
             if kind == 'f':
                 if not self.exists('started', i):
                     if not self.wait_for(lambda: self.exists('started', i), ['started', i]):
@@ -399,12 +412,17 @@ class Releaser(threading.Thread):
             else:
                 self.expected.add(i)
                 self.wait_for(lambda: self.exists('started', i), ['started', i])
-        # 3. until the step returns: anything else that starts is unexpected
+        # 3. until the step returns: anything else that starts is unexpected (and is let go)
         while not self.finished.is_set():
             if time.monotonic() - self.t0 > WATCHDOG_S:
                 self.infra = f'watchdog: step did not return within {WATCHDOG_S}s'
                 return
-            self.sweep_unexpected()
+            if self.free_run:
+                for i in self.all_ids:
+                    if self.exists('started', i):
+                        self.release(i)
+            else:
+                self.sweep_unexpected()
             time.sleep(0.001)
 
 
